@@ -965,3 +965,215 @@ Proof.
   - intros ->. now apply (inv_ns _ I wt r X).
   - eapply wf_owner_active; eauto. apply I.
 Qed.
+
+(* ================================================================== *)
+(* Part 4: the watchdog's victim                                        *)
+
+(* min(xs, key=...) returns the FIRST element with the smallest key *)
+Lemma min_by_spec key : forall l best,
+  exists l1 l2, best :: l = l1 ++ min_by key best l :: l2 /\
+    (forall m, In m l1 -> key (min_by key best l) < key m) /\
+    (forall m, In m l2 -> key (min_by key best l) <= key m).
+Proof.
+  induction l as [|x l IH]; intros best; simpl.
+  - exists [], []. split; auto. split; intros m [].
+  - destruct (Z.ltb (key x) (key best)) eqn:E.
+    + destruct (IH x) as (l1 & l2 & Heq & H1 & H2).
+      set (r := min_by key x l) in *.
+      assert (Hx : key r <= key x).
+      { assert (X : In x (l1 ++ r :: l2)) by (rewrite <- Heq; simpl; auto).
+        apply in_app_or in X as [X|[X|X]].
+        - specialize (H1 x X). lia.
+        - rewrite X. lia.
+        - now apply H2. }
+      exists (best :: l1), l2. split. { simpl. now rewrite Heq. }
+      split; auto. intros m [<-|X]; [lia | auto].
+    + destruct (IH best) as (l1 & l2 & Heq & H1 & H2).
+      set (r := min_by key best l) in *.
+      destruct l1 as [|b l1].
+      * simpl in Heq. inversion Heq. exists [], (x :: l2). split.
+        { simpl. congruence. }
+        split; [intros m []|]. intros m [<-|X]; [rewrite <- H0; lia | auto].
+      * simpl in Heq. inversion Heq. subst b. exists (best :: x :: l1), l2. split.
+        { simpl. congruence. }
+        split; auto. intros m [<-|[<-|X]].
+        -- apply H1. simpl. auto.
+        -- assert (key r < key best) by (apply H1; simpl; auto). lia.
+        -- apply H1. simpl. auto.
+Qed.
+
+Lemma filter_all {A} (f : A -> bool) l : (forall x, In x l -> f x = true) -> filter f l = l.
+Proof.
+  induction l as [|a l IH]; simpl; auto. intros H. rewrite (H a) by auto. f_equal. apply IH. auto.
+Qed.
+
+Lemma chain_members_succ g z : forall l, chain g (l ++ [z]) -> forall m, In m l -> exists y, gedge g m y.
+Proof.
+  induction l as [|a l IH]; intros C m []; subst.
+  - destruct l as [|b l]; simpl in C; destruct C as [C _]; eauto.
+  - apply IH; auto. eapply chain_tail; eauto.
+Qed.
+
+Lemma cycle_members_succ g c m : is_cycle g c -> In m c -> exists y, gedge g m y.
+Proof. destruct c as [|x c]; simpl; [tauto|]. intros C. now apply (chain_members_succ g x (x :: c)). Qed.
+
+(* members of a cycle of the recorded graph are live, blocked operations *)
+Lemma cycle_members_live gs c m :
+  Inv gs -> is_cycle (edges (fst gs)) c -> In m c ->
+  In m (active (fst gs)) /\
+  exists r b, In (m, r) (snd gs) /\ owner (fst gs) r = Some b /\ b <> m /\ In b (active (fst gs)).
+Proof.
+  intros I C Hm. destruct (cycle_members_succ _ _ _ C Hm) as (y & r & Hy).
+  apply (inv_E _ I) in Hy as (X1 & X2 & X3). split; auto.
+  exists r, y. split; auto. split; auto. split.
+  - intros ->. now apply (inv_ns _ I m r X1).
+  - eapply wf_owner_active; eauto. apply I.
+Qed.
+
+Definition victim_key (w : wcfg) (s : st) : option (Z -> Z) :=
+  match w_strategy w with
+  | SPriority => Some (prio_of s)
+  | SOldest => Some (created_of s)
+  | SOther => None
+  end.
+
+Lemma select_victim_spec w s c :
+  c <> [] -> (forall m, In m c -> In m (active s)) ->
+  exists v l1 l2, select_victim w s c = Some v /\ c = l1 ++ v :: l2 /\
+    match victim_key w s with
+    | Some key => (forall m, In m l1 -> key v < key m) /\ (forall m, In m l2 -> key v <= key m)
+    | None => l1 = []
+    end.
+Proof.
+  intros Hne Hact. unfold select_victim, victim_key.
+  rewrite filter_all by (intros x X; apply is_active_In; auto).
+  destruct c as [|x l]; [congruence|].
+  destruct (w_strategy w).
+  - destruct (min_by_spec (prio_of s) l x) as (l1 & l2 & A & B & C). eauto 10.
+  - destruct (min_by_spec (created_of s) l x) as (l1 & l2 & A & B & C). eauto 10.
+  - exists x, [], l. auto.
+Qed.
+
+Lemma wd_check_has_victim w s c v :
+  detect_cycle (edges s) = Some c -> select_victim w s c = Some v -> In v (active s) ->
+  In v (map fst (wd_check w s)).
+Proof.
+  intros D S A. unfold wd_check. rewrite D, S.
+  destruct (memz v (map fst _)) eqn:M.
+  - now apply memz_In.
+  - assert (Ia : is_active s v = true) by now apply is_active_In.
+    rewrite Ia. rewrite map_app, in_app_iff. simpl. auto.
+Qed.
+
+Lemma gstep_watchdog_state w gs :
+  fst (fst (gstep current w gs HWatchdog)) = fst (wd_execute current w (fst gs)).
+Proof.
+  destruct gs as [s ws]. unfold gstep. cbn [to_fop fstep fst].
+  destruct (wd_execute current w s) as [s' evs]. reflexivity.
+Qed.
+
+Lemma victim_proof w gs c :
+  Inv gs -> detect_cycle (edges (fst gs)) = Some c ->
+  let s := fst gs in
+  let gs' := fst (gstep current w gs HWatchdog) in
+  exists v l1 l2,
+    select_victim w s c = Some v /\ c = l1 ++ v :: l2 /\ In v (active s) /\
+    match victim_key w s with
+    | Some key => (forall m, In m l1 -> key v < key m) /\ (forall m, In m l2 -> key v <= key m)
+    | None => l1 = []
+    end /\
+    In v (map fst (snd (wd_execute current w s))) /\
+    ~ In v (active (fst gs')) /\ (forall r, owner (fst gs') r <> Some v) /\
+    ~ is_cycle (edges (fst gs')) c /\ Inv gs'.
+Proof.
+  intros I D. cbv zeta. destruct (cycle_sound_proof _ _ D) as (C & ND).
+  assert (Hne : c <> []) by (destruct c; simpl in C; [tauto | discriminate]).
+  assert (Hact : forall m, In m c -> In m (active (fst gs))).
+  { intros m Hm. now apply (cycle_members_live gs c m I C Hm). }
+  destruct (select_victim_spec w (fst gs) c Hne Hact) as (v & l1 & l2 & S & Hc & K).
+  assert (Hv : In v c) by (rewrite Hc; apply in_or_app; simpl; auto).
+  exists v, l1, l2. split; auto. split; auto. split; auto. split; auto.
+  pose proof (wd_check_has_victim w (fst gs) c v D S (Hact v Hv)) as Hev.
+  split. { exact Hev. }
+  pose proof (gstep_inv w gs HWatchdog I) as I'.
+  pose proof (wd_execute_spec w (fst gs) (inv_wf _ I)) as X.
+  rewrite gstep_watchdog_state.
+  destruct (wd_execute current w (fst gs)) as [s' evs] eqn:Ew.
+  assert (Hev' : In v (map fst evs)).
+  { unfold wd_execute in Ew. inversion Ew; subst. exact Hev. }
+  destruct X as (W' & _ & _ & N). destruct (N v Hev') as (Na & No).
+  simpl fst. split; auto. split; auto. split; auto.
+  (* the victim has no outgoing edge any more *)
+  intros C'.
+  assert (Es : fst (fst (gstep current w gs HWatchdog)) = s').
+  { rewrite gstep_watchdog_state, Ew. reflexivity. }
+  rewrite <- Es in C'.
+  destruct (cycle_members_live _ c v I' C' Hv) as (A' & _).
+  rewrite Es in A'. apply Na. exact A'.
+Qed.
+
+Lemma victim_reachable_proof res w hs c :
+  let gs := grun current w (ginit res) hs in
+  detect_cycle (edges (fst gs)) = Some c ->
+  let s := fst gs in
+  let gs' := fst (gstep current w gs HWatchdog) in
+  exists v l1 l2,
+    select_victim w s c = Some v /\ c = l1 ++ v :: l2 /\ In v (active s) /\
+    match victim_key w s with
+    | Some key => (forall m, In m l1 -> key v < key m) /\ (forall m, In m l2 -> key v <= key m)
+    | None => l1 = []
+    end /\
+    In v (map fst (snd (wd_execute current w s))) /\
+    ~ In v (active (fst gs')) /\ (forall r, owner (fst gs') r <> Some v) /\
+    ~ is_cycle (edges (fst gs')) c /\ Inv gs'.
+Proof. intros gs D. apply victim_proof; auto. apply reachable_inv. Qed.
+
+(* detection is exact on the REFERENCE relation in every reachable state *)
+Definition ref_graph_edge (gs : gstate) (x y : Z) : Prop :=
+  exists r, In (x, y, r) (ref_edges gs).
+
+Lemma gedge_ref gs x y : Inv gs -> (gedge (edges (fst gs)) x y <-> ref_graph_edge gs x y).
+Proof.
+  intros I. unfold gedge, ref_graph_edge. split; intros (r & X); exists r.
+  - apply edges_exact_inv; auto. apply rec_edges_In; auto. apply I.
+  - apply edges_exact_inv in X; auto. apply rec_edges_In in X; auto. apply I.
+Qed.
+
+(* cycles of an arbitrary relation, to speak about the REFERENCE relation *)
+Fixpoint rchain (R : Z -> Z -> Prop) (l : list Z) : Prop :=
+  match l with
+  | x :: ((y :: _) as t) => R x y /\ rchain R t
+  | _ => True
+  end.
+Definition is_rcycle (R : Z -> Z -> Prop) (c : list Z) : Prop :=
+  match c with [] => False | x :: _ => rchain R (c ++ [x]) end.
+
+Lemma chain_rchain g R : (forall x y, gedge g x y <-> R x y) -> forall l, chain g l <-> rchain R l.
+Proof.
+  intros H. induction l as [|a l IH]; simpl; [tauto|].
+  destruct l as [|b l]; [tauto|]. rewrite (H a b). tauto.
+Qed.
+
+Lemma is_cycle_rcycle g R c : (forall x y, gedge g x y <-> R x y) -> (is_cycle g c <-> is_rcycle R c).
+Proof. intros H. destruct c as [|x c]; [simpl; tauto|]. unfold is_cycle, is_rcycle. now apply chain_rchain. Qed.
+
+Lemma deadlock_iff_reference_proof res w hs :
+  let gs := grun current w (ginit res) hs in
+  (detect_cycle (edges (fst gs)) <> None <-> exists c, is_rcycle (ref_graph_edge gs) c) /\
+  (forall c, detect_cycle (edges (fst gs)) = Some c ->
+     is_rcycle (ref_graph_edge gs) c /\ NoDup c /\
+     forall m, In m c ->
+       In m (active (fst gs)) /\
+       exists r b, In (m, r) (snd gs) /\ owner (fst gs) r = Some b /\ b <> m /\ In b (active (fst gs))).
+Proof.
+  intros gs. pose proof (reachable_inv res w hs) as I. fold gs in I.
+  assert (H : forall x y, gedge (edges (fst gs)) x y <-> ref_graph_edge gs x y)
+    by (intros; now apply gedge_ref).
+  split; [split|].
+  - intros N. destruct (detect_cycle (edges (fst gs))) as [c|] eqn:D; [|congruence].
+    exists c. apply (is_cycle_rcycle _ _ c H). now apply cycle_sound_proof.
+  - intros (c & C). apply cycle_complete_proof. exists c. now apply (is_cycle_rcycle _ _ c H).
+  - intros c D. destruct (cycle_sound_proof _ _ D) as (C & ND).
+    split. { now apply (is_cycle_rcycle _ _ c H). }
+    split; auto. intros m Hm. now apply (cycle_members_live gs c m I C Hm).
+Qed.
